@@ -289,6 +289,31 @@ Section Deck.
     - intros Hall. inversion Hall as [|? ? Ha Hb]; subst. f_equal. apply Hz. split; assumption.
   Qed.
 
+  (* a jumped entry (nJ) of a single IMP card: the code keeps None, which is not
+     == 0: the cell at that rank is NOT skipped (it is converted when it is in
+     no universe and has no FILL) *)
+  Theorem jumped_cell_kept name toks es vals cards lats cells skipped r key mat geom opts :
+    parse_cells RS P [(name, toks)] cards lats = Ok (cells, skipped) ->
+    reads P toks es -> meaning RS (pw P) es None = Some vals -> nth_error vals r = Some None ->
+    nth_error (dict_of Z.eqb cards) r = Some (key, (Explicit mat geom, opts)) ->
+    opt_imps RS P (option_tokens opts) [] ->
+    ~ In key skipped /\
+    exists c, In (key, c) cells /\ c_imp c = None /\
+              (c_u c = 0%Z -> c_fill c = FNone -> In key (conv_keys RS cells)).
+  Proof.
+    intros H Hr Hm Hj Hn Hopt.
+    destruct (cell_at _ _ _ _ _ _ _ _ _ _ H Hn) as (imps & c & Hi & Hw & Hin).
+    rewrite (importance_cards_single RS P name toks es vals Hr Hm) in Hi. injection Hi as <-.
+    pose proof (importance_of_cell RS P _ _ _ _ _ _ _ _ Hopt Hw) as Himp. cbn [imp_of_entries] in Himp.
+    rewrite Hj in Himp. injection Himp as Himp.
+    destruct (skipped_iff_zero RS P _ _ _ _ _ H) as (_ & Hnd & Hs).
+    assert (is_zero RS c = false) as Hz by (unfold is_zero; rewrite <- Himp; reflexivity).
+    split.
+    - rewrite (Hs key c Hin), Hz. discriminate.
+    - exists c. split; [exact Hin|]. split; [symmetry; exact Himp|]. intros Hu Hf.
+      apply (converted_iff RS cells key c Hnd Hin). auto.
+  Qed.
+
   (* importances on the cell card (explicit card, whatever the data cards say) *)
   Theorem cell_card_zero_iff imp_cards cards lats cells skipped r key mat geom opts es :
     parse_cells RS P imp_cards cards lats = Ok (cells, skipped) ->
